@@ -13,7 +13,7 @@
   loop iterations (one unit per evaluation of the loop condition that is TRUE, plus — in the generated
   code only — one unit for the final evaluation that is FALSE).  `exitIndex new inHigh f j` is the index
   at which the loop condition `newMapping.LowerBound(outIndex) < inHigherBound` first fails, started at
-  `j`, if that happens within `f` evaluations.  Then (`loop2_eq`, an EQUATION, no side condition)
+  `j`, if that happens within `f` evaluations.  Then (`cm_loop2_eq`, an EQUATION, no side condition)
 
       loop2 … f st j = match exitIndex new inHigh f j with
                         | some j' => .done (addAll st (spreadBin new inLow inHigh count f j), j')
@@ -177,7 +177,7 @@ theorem spreadBin_fuel_mono (new : MapEnv) (inLow inHigh count : F64) {f : Nat} 
 /-! ### the inner loop -/
 
 /-- **the inner loop is `spreadBin`**, for any mapping and store types, all floats, same fuel on both sides -/
-theorem loop2_eq {M S : Type} [MapI M] [StoreI S] [Inhabited M] [Inhabited S] (newM : M) (new : MapEnv)
+theorem cm_loop2_eq {M S : Type} [MapI M] [StoreI S] [Inhabited M] [Inhabited S] (newM : M) (new : MapEnv)
     (hnew : MapAgrees newM new) (inHigh inLow count : F64) (f : Nat) (st : S) (j : Int) :
     changeStoreMapping.loop2 (M := M) (S := S) newM inHigh inLow (F64.sub inHigh inLow) count f st j =
       match exitIndex new inHigh f j with
@@ -210,7 +210,7 @@ theorem loop2_done {M S : Type} [MapI M] [StoreI S] [Inhabited M] [Inhabited S] 
     j ≤ j' ∧ j' < j + f ∧ F64.lt (new.lowerBound j') inHigh = false ∧
     (∀ i, j ≤ i → i < j' → F64.lt (new.lowerBound i) inHigh = true) ∧
     ∀ f', f ≤ f' → spreadBin new inLow inHigh count f' j = spreadBin new inLow inHigh count f j := by
-  rw [loop2_eq newM new hnew] at h
+  rw [cm_loop2_eq newM new hnew] at h
   cases he : exitIndex new inHigh f j with
   | none => rw [he] at h; cases h
   | some k =>
@@ -228,7 +228,7 @@ theorem loop2_finishes {M S : Type} [MapI M] [StoreI S] [Inhabited M] [Inhabited
     (hstop : F64.lt (new.lowerBound (j + k)) inHigh = false) :
     ∃ j', changeStoreMapping.loop2 (M := M) (S := S) newM inHigh inLow (F64.sub inHigh inLow) count f st j =
       .done (addAll st (spreadBin new inLow inHigh count f j), j') := by
-  rw [loop2_eq newM new hnew]
+  rw [cm_loop2_eq newM new hnew]
   have := exitIndex_isSome_of new inHigh f j k hk hstop
   cases he : exitIndex new inHigh f j with
   | none => rw [he] at this; cases this
@@ -238,7 +238,7 @@ theorem loop2_nofuel {M S : Type} [MapI M] [StoreI S] [Inhabited M] [Inhabited S
     (hnew : MapAgrees newM new) (inHigh inLow count : F64) (f : Nat) (st : S) (j : Int)
     (hrun : ∀ i, j ≤ i → i < j + f → F64.lt (new.lowerBound i) inHigh = true) :
     changeStoreMapping.loop2 (M := M) (S := S) newM inHigh inLow (F64.sub inHigh inLow) count f st j = .nofuel := by
-  rw [loop2_eq newM new hnew, (exitIndex_eq_none_iff new inHigh f j).2 hrun]
+  rw [cm_loop2_eq newM new hnew, (exitIndex_eq_none_iff new inHigh f j).2 hrun]
 
 /-! ### one store -/
 
@@ -272,7 +272,7 @@ theorem allExit_of (old new : MapEnv) (scale : F64) (fuel : Nat) (idxs : List In
   exact exitIndex_isSome_of new _ fuel _ k hk hs
 
 /-- the outer loop (over the `ForEach` list): an equation -/
-theorem loop1_eq {M S : Type} [MapI M] [StoreI S] [Inhabited M] [Inhabited S] (oldM newM : M)
+theorem cm_loop1_eq {M S : Type} [MapI M] [StoreI S] [Inhabited M] [Inhabited S] (oldM newM : M)
     (old new : MapEnv) (hold : MapAgrees oldM old) (hnew : MapAgrees newM new) (scale : F64) (fuel : Nat)
     (bins : List (Int × F64)) (st : S) :
     changeStoreMapping.loop1 (M := M) (S := S) fuel oldM scale newM bins st =
@@ -285,7 +285,7 @@ theorem loop1_eq {M S : Type} [MapI M] [StoreI S] [Inhabited M] [Inhabited S] (o
     obtain ⟨index, count⟩ := b
     unfold changeStoreMapping.loop1
     simp only [hold.lb, hnew.idx]
-    rw [loop2_eq newM new hnew]
+    rw [cm_loop2_eq newM new hnew]
     simp only [allExit, List.map_cons, List.all_cons]
     cases he : exitIndex new (F64.mul (old.lowerBound (index + 1)) scale) fuel
         (new.index (F64.mul (old.lowerBound index) scale)) with
@@ -306,7 +306,7 @@ theorem changeStoreMapping_eq {M S : Type} [MapI M] [StoreI S] [Inhabited M] [In
         .ok (addAll newStore (spreadStoreF old new scale (StoreI.ForEachList oldStore) fuel))
       else .nofuel := by
   unfold changeStoreMapping
-  rw [loop1_eq oldM newM old new hold hnew]
+  rw [cm_loop1_eq oldM newM old new hold hnew]
   split <;> rfl
 
 /-- … specialised to the model's stores: the source store's bins `bins`, any target store -/
